@@ -220,9 +220,18 @@ func Gen(o GenOpts) *rapid.Generator[Script] {
 				}
 			}
 			s.Ops = append(s.Ops, Op{K: "D"})
+			// v1: input buffers smaller than the shares, kept full by blocked producers
+			small := s.Ver == 1 && rapid.IntRange(0, 2).Draw(t, "smallbuf") == 0
+			if small {
+				s.Strict, s.OutCap = true, 0
+			}
 			for _, p := range ps {
 				n := h + rel + 1 + rapid.IntRange(0, 3).Draw(t, "margin")
-				s.Ins = append(s.Ins, In{P: p, Cap: n, Prefill: n})
+				cp := n
+				if small {
+					cp = min(n, pick(t, "smallcap", 1, 2, 3, 4, 6, 10))
+				}
+				s.Ins = append(s.Ins, In{P: p, Cap: cp, Prefill: n})
 			}
 			return s
 		}
